@@ -27,3 +27,6 @@ Theorem C12_EnterxLeavex cfg instr is_enterx s : ictx cfg s ->
   else if mode_of s =? 26 then Exc EUndefined s else Ok tt (with_cpsr s (SelectInstrSet (cpsr_of s) InstrSet_THUMBEE)).
 Proof. exact (EnterxLeavex_ok cfg instr is_enterx s). Qed.
 Print Assumptions C12_EnterxLeavex.
+Theorem C12_Dsb cfg instr option s : cond_holds s -> have_virt cfg = 0 -> Dsb_execute cfg instr option s = Exc ENotImpl s.
+Proof. exact (Dsb_ok cfg instr option s). Qed.
+Print Assumptions C12_Dsb.
